@@ -28,6 +28,7 @@ PY_EXC = {0: None, 1: "GenericError", 2: "NoParticles", 3: "Encounter", 4: "Esca
 STATUS_NAMES = {-10: "SINGLE_STEP", -5: "SCREENSHOT_READY", -4: "SCREENSHOT", -3: "PAUSED", -2: "LAST_STEP", -1: "RUNNING",
                 0: "SUCCESS", 1: "GENERIC_ERROR", 2: "NO_PARTICLES", 3: "ENCOUNTER", 4: "ESCAPE", 5: "USER", 6: "SIGINT",
                 7: "COLLISION"}
+BS_USER_ODES = [False]   # reb_check_exit counts only user ODEs (fixes/C08-bs-no-particles.diff); else the internal N-body ODE of BS too
 GUARD3 = [False]      # the no-progress guard of /repo addb1f3 (error at the top of the next loop pass): model integrateG
 NAN_GUARD = [False]   # does reb_simulation_integrate refuse a NaN target (fixes/C08-nan-target.diff)?  set from the source by run()
 CAP = 400          # in-process step cap per call (heartbeat calls reb_simulation_stop; the model gets the same flag)
@@ -138,7 +139,9 @@ class Harness:
         except RuntimeError:
             pass
         return dict(pre=pre, beats=beats, post=post, ret=ret, flags=flags, capped=state["capped"], tmax=tmax, exact=exact,
-                    n_odes=sim._N_odes, dt_in=(dtins if script is not None else None))
+                    n_odes=(sim._N_odes - (1 if (BS_USER_ODES[0] and bool(sim.ri_bs._nbody_ode)) else 0)),
+                    n_user_odes=(sim._N_odes - (1 if bool(sim.ri_bs._nbody_ode) else 0)),
+                    dt_in=(dtins if script is not None else None))
 
 
 def model_line(kind, rec, is_bs=False, n_odes=0, fuel=None):
@@ -453,7 +456,7 @@ def first_firing(rec, is_bs=False):
         if m & F_ENC: st = 3
         if m & F_SIGINT: st = 6
         if m & F_ERR: st = 1
-        if n == 0 and not (is_bs and rec["n_odes"] > 0): st = 2
+        if n == 0 and not (is_bs and rec.get("n_user_odes", rec["n_odes"]) > 0): st = 2      # only USER ODEs keep BS going without particles
         if st is not None:
             return k, st
     return None, None
@@ -484,6 +487,48 @@ except Exception as e:
     st = type(e).__name__
 print(json.dumps(dict(t=sim.t, dt=sim.dt, steps=sim.steps_done, status=st, nbeats=len(beats),
                       mono=all((b - a) * math.copysign(1, job["tmax"] - job["t0"]) >= 0 for a, b in zip(beats, beats[1:])))))
+'''
+
+
+MERC_PROBE = r'''
+import sys, json, ctypes
+sys.path.insert(0, %(scratch)r)
+import warnings; warnings.filterwarnings("ignore")
+import rebound
+J = json.load(open(sys.argv[1]))
+S = J["system"]
+A = rebound.Simulation(); A.integrator = "mercurius"
+for p in S["particles"]:
+    A.add(m=p[0], x=p[1], y=p[2], z=p[3], vx=p[4], vy=p[5], vz=p[6])
+A.N_active = S["N_active"]; A.testparticle_type = S["testparticle_type"]; A.dt = S["dt"]
+A.ri_mercurius.safe_mode = int(J["line"].split()[1])
+lib = rebound.clibrebound
+lib.reb_simulation_integrate.argtypes = [ctypes.c_void_p, ctypes.c_double]
+def cb(sp):
+    s = sp.contents
+    for i in range(1, s.N):
+        q = s._particles[i]
+        q.vx *= (1. - 1e-3); q.vy *= (1. - 1e-3); q.vz *= (1. - 2e-3)
+state = 12345
+def rnd():
+    global state
+    state = (state * 6364136223846793005 + 1442695040888963407) %% 2**64
+    return state / 2**64
+for op in J["ops"]:
+    o = op[0]
+    if o == "c":
+        if op[1]: A.pre_timestep_modifications = cb
+        if op[2]: A.post_timestep_modifications = cb
+        lib.reb_simulation_step(ctypes.byref(A))
+        FT = type(A._pre_timestep_modifications); A._pre_timestep_modifications = FT(); A._post_timestep_modifications = FT()
+    elif o == "i":
+        A.exact_finish_time = op[2]; lib.reb_simulation_integrate(ctypes.byref(A), op[1])
+    elif o == "s": lib.reb_simulation_step(ctypes.byref(A))
+    elif o == "y": lib.reb_simulation_synchronize(ctypes.byref(A))
+    elif o == "f": A.ri_mercurius.recalculate_coordinates_this_timestep = 1
+    elif o == "p":
+        A.particles[int(rnd() * A.N)].vy += (rnd() - 0.5) * 2e-3
+print(json.dumps(dict(t=A.t, dt=A.dt, steps=A.steps_done, status=A._status)))
 '''
 
 
@@ -527,6 +572,8 @@ def run(c):
     GUARD3[0] = guard_needs == 3
     c.cov["no_progress_guard_needs_stalled_steps"] = guard_needs
     NAN_GUARD[0] = info["has_nan_guard"]
+    BS_USER_ODES[0] = info["bs_user_odes"]
+    c.cov["check_exit_counts_only_user_odes"] = BS_USER_ODES[0]
     c.cov["nan_target_check_in_source"] = NAN_GUARD[0]
     c.cov["no_progress_guard_in_source"] = has_guard
 
@@ -665,7 +712,11 @@ def run(c):
             k, st = first_firing(rec, is_bs=(integ == "bs"))
             if st is None:
                 st = 0
-            if rec["ret"] != st or (k is not None and len(rec["beats"]) != k + 1):
+            if integ == "bs" and st == 2 and rec["ret"] != 2:
+                fails.append(("C08-N6:bs-internal-ode-hides-no-particles", "BS without user ODEs: all particles gone but integrate() goes on instead of returning NO_PARTICLES (reb_check_exit counts the N-body ODE that BS registers itself)",
+                              dict(integrator=integ, event=ev_kind, boundary=kb, tmax=tmax, exact_finish_time=exact, returned=rec["ret"],
+                                   expected=2, N_odes=sim._N_odes, user_odes=rec["n_user_odes"], heartbeats=len(rec["beats"]))))
+            elif rec["ret"] != st or (k is not None and len(rec["beats"]) != k + 1):
                 fails.append(("status-first-boundary", "returned status is not that of the first boundary at which an exit condition holds",
                               dict(integrator=integ, event=ev_kind, boundary=kb, tmax=tmax, exact_finish_time=exact, returned=rec["ret"],
                                    expected=st, heartbeats=len(rec["beats"]), expected_heartbeats=(k + 1 if k is not None else None))))
@@ -677,6 +728,25 @@ def run(c):
                 rec2 = H.call(sim, sim.t + 0.35, exact)
                 record(integ, rec2, "after:" + ev_kind, is_bs=(integ == "bs"))
                 check_contract(c, integ, rec2, abs(rec2["pre"][1]), fails, worst)
+
+    # BS with a USER-defined ODE: removing all particles must NOT end the integration (rebound.c:733-737), the ODE is integrated on to tmax
+    for rep in range(4 if thorough else 2):
+        rng = c.rng.fork()
+        sim = H.make_sim("bs", 0.0, 0.1 * rng.choice([1, -1]), rng)
+        ode = sim.create_ode(length=2, needs_nbody=False)
+
+        def deriv(ode_p, ydot, y, t):
+            ydot[0] = y[1]; ydot[1] = -y[0]
+        ode.derivatives = deriv
+        ode.y[0] = 1.0; ode.y[1] = 0.0
+        kb = rng.randint(1, 4)
+        tmax = rng.choice([1.0, -1.3])
+        rec = H.call(sim, tmax, rng.choice([0, 1]), events={kb: {"empty"}})
+        record("bs", rec, "event:empty+user_ode", is_bs=True)
+        c.count(("bs-user-ode", kb))
+        if rec["ret"] != 0 or abs(ode.y[0] ** 2 + ode.y[1] ** 2 - 1.0) > 1e-3:
+            fails.append(("bs-user-ode-stopped", "BS with a user ODE: integration did not continue to tmax after all particles were removed",
+                          dict(returned=rec["ret"], t=rec["post"][0], tmax=tmax, y=[ode.y[0], ode.y[1]])))
 
     # ------------------------------------------------------------------ C: exit conditions from particle positions
     nC = 200 if thorough else 10
@@ -968,9 +1038,10 @@ def run(c):
                     rec = H.call(sim, tmax, 1, conds=cond_fn(maxd, mind, radii))
                 record(integ, rec, "last-step-exit:" + kind, is_bs=(integ == "bs"))
                 want = {"user": 5, "err": 1, "sigint": 6, "empty": 2, "escape": 4, "encounter": 3, "collision": 7}[kind]
-                if kind == "empty" and integ == "bs":
-                    want = rec["ret"]          # BS with its N-body ODE registered goes on without particles
-                if rec["ret"] != want:
+                if kind == "empty" and integ == "bs" and rec["ret"] != 2:
+                    fails.append(("C08-N6:bs-internal-ode-hides-no-particles", "BS without user ODEs: all particles gone but integrate() goes on instead of returning NO_PARTICLES (reb_check_exit counts the N-body ODE that BS registers itself)",
+                                  dict(integrator=integ, exit=kind, dt=dt0, tmax=tmax, returned=rec["ret"], expected=2)))
+                elif rec["ret"] != want:
                     fails.append(("status-first-boundary", "exit condition on the last step: returned status %s, expected %s" % (rec["ret"], want),
                                   dict(integrator=integ, exit=kind, dt=dt0, tmax=tmax, returned=rec["ret"], expected=want)))
                 if rec["ret"] != 0:
@@ -2136,6 +2207,23 @@ def search_more(c, H, scratch, fails, worst):
     if hang:
         fails.append(("C08-N2:absorbed-step-hang", "integrate() never returns when |t| is so large that t + dt == t in double precision "
                       "(the loop makes no progress and has no guard)", hang[0]))
+    # MERCURIUS encounter sub-integration with a collapsed IAS15 step (two planets falling onto each other after a drag callback): the
+    # escape hatch of reb_mercurius_encounter_step (|dt/old_dt| > 1e-14) is missed by a hair while dt is ~10 ulp of t, so one outer step
+    # would need ~1e13 sub-steps: integrate() does not return in any reasonable time.  Replayed from corpus/C08 in a subprocess.
+    cj = os.path.join(ROOT, "corpus", "C08", "mercurius_encounter_collapse.json")
+    if os.path.exists(cj):
+        try:
+            p = subprocess.run([sys.executable, "-c", MERC_PROBE % dict(scratch=scratch), cj], capture_output=True, text=True, timeout=12)
+            outm = p.stdout.strip().splitlines()[-1] if p.stdout.strip() else ""
+            probes["mercurius_encounter_collapse"] = {"outcome": "returned", "result": outm[:200], "rc": p.returncode}
+            if p.returncode != 0:
+                fails.append(("mercurius-encounter-probe", "replay of the MERCURIUS encounter case failed", dict(rc=p.returncode, stderr=p.stderr[-300:])))
+        except subprocess.TimeoutExpired:
+            probes["mercurius_encounter_collapse"] = {"outcome": "timeout"}
+            fails.append(("C08-N7:mercurius-encounter-step-collapse",
+                          "MERCURIUS: integrate() does not return - the encounter sub-integration runs with dt of a few ulp of t, just above its own "
+                          "give-up threshold 1e-14*dt (integrator_mercurius.c:338)", dict(corpus="corpus/C08/mercurius_encounter_collapse.json", timeout_s=12)))
+        c.count(("probe", "mercurius-encounter-collapse"))
     c.cov["subprocess_probes"] = probes
 
 
